@@ -85,6 +85,21 @@ F20_Comps(t) == CASE t = "Q" -> { Sel("", "l"), Sel("", "ll"), Sel("", "il"), Se
                   [] OTHER -> {}
 F20_Inlines(t) == IF t = "I" THEN { "A" } ELSE {}
 
+\* W: "wild" documents for C09 -- NOT valid: unknown fields, leaves with sub-selections,
+\* composites without, cyclic and unknown-typed fragments, any operation kind
+W_Leafs(t) == CASE t = "Q" -> { Sel("", "a"), Sel("", "zz"), Sel("", "o"), SelA("", "f", <<[n |-> "nope", v |-> IntV("1")]>>),
+                                SelA("", "f", <<[n |-> "x", v |-> StrV("s")]>>), Sel("", "__typename"), Sel("", "__schema") }
+                [] t = "O" -> { Sel("", "x"), Sel("", "z"), Sel("", "qq") }
+                [] t = "M" -> { Sel("", "a"), Sel("", "o") }
+                [] OTHER -> { Sel("", "x") }
+W_Comps(t) == CASE t = "Q" -> { Sel("", "o"), Sel("", "a"), Sel("", "i"), Sel("", "l") }
+                [] t = "O" -> { Sel("", "z"), Sel("", "x") }
+                [] t = "M" -> { Sel("", "o") }
+                [] OTHER -> {}
+W_Inlines(t) == { "", "Q", "O", "Int", "Nope", "I" }
+SpreadAny(i, j) == TRUE
+FragsW == << [name |-> "F", on |-> "Q"], [name |-> "G", on |-> "O"] >>
+
 \* F5: arguments (literal / variable / defaults), see also C05
 F5_Leafs(t) ==
   IF t # "Q" THEN {} ELSE
@@ -181,6 +196,10 @@ WellFormedRoot ==
     \A f \in Assignments : \A oi \in 1..Len(OutTables) :
       LET r == ExecuteOp(S1, D, D.ops[1], InputsOf(f), OutTables[oi], {})
       IN WellFormed(EnvOf(D, D.ops[1], InputsOf(f), OutTables[oi]), D.ops[1], r)
+
+WildComplete == sec = NSec /\ Len(stack) = 1 /\ stack[1].sels # <<>>
+EmitWild == WildComplete =>
+  PrintT(<<"VEC", ToJson([fam |-> "W", doc |-> DocOf(VDefs), outs |-> << <<>> >>, runs |-> <<>>])>>)
 
 ASSUME PrintT(<<"SCHEMA", ToJson(S1)>>)
 
